@@ -12,6 +12,7 @@ What is a parameter here (external behaviour, see the harness for how it is tied
 
 Python failure modes are kept:
   `LoadErr.typeError loc reason`  a TypeError; `main` prints `str(e)` and returns 1
+  `LoadErr.importError target`    ModuleNotFoundError for a `--load` target; `main` prints `str(e)`, returns 1
   `LoadErr.crash exc`             any other exception: not caught by `main` (traceback)
 -/
 import RefurbVerif.Model.Settings
@@ -24,17 +25,25 @@ abbrev ModPath := List String
 
 inductive LoadErr where
   | typeError (loc : Option (String × Nat)) (reason : String)
+  | importError (target : ModPath)
   | crash (exc : String)
   deriving DecidableEq, Repr
 
 /-- `type_error_with_line_info(func, msg)` -/
 def located (file : String) (line : Nat) (reason : String) : LoadErr := .typeError (some (file, line)) reason
 
-/-- `str(e)` of the TypeError built by `type_error_with_line_info`: `f"{filename}:{line}: {msg}"` -/
+/-- `str(e)` of the TypeError built by `type_error_with_line_info`: `f"{filename}:{line}: {msg}"`
+    (for an ImportError the exact text needs the forest: `importText`) -/
 def LoadErr.text : LoadErr → String
   | .typeError (some (file, line)) reason => file ++ ":" ++ toString line ++ ": " ++ reason
   | .typeError none reason => reason
+  | .importError target => "No module named '" ++ ".".intercalate target ++ "'"
   | .crash exc => exc
+
+/-- what `importlib.import_module` raises for a name that does not resolve: ValueError for the empty
+    name, otherwise ModuleNotFoundError (relative names are not modelled) -/
+def importFailure (t : ModPath) : LoadErr :=
+  if t = [""] then .crash "ValueError" else .importError t
 
 /-! ### Signatures -/
 
@@ -50,16 +59,16 @@ inductive Atom where
   | listError
   /-- any other hashable object that has a `__name__` (a class, `list[int]`, `typing.Union[..]`) -/
   | cls (name : String)
-  /-- a hashable object without `__name__`: a string annotation -/
-  | opaque
+  /-- a hashable object without `__name__` (a string annotation), with its `repr` -/
+  | opaque (repr : String)
   /-- an unhashable object such as the display `[IntExpr]`; `ty` is its type's name -/
-  | unhashable (ty : String)
+  | unhashable (ty : String) (repr : String)
   deriving DecidableEq, Repr
 
 inductive Ann where
   | one (a : Atom)
-  /-- `X | Y`, a `types.UnionType` (flat, hashable, no `__name__`) -/
-  | union (args : List Atom)
+  /-- `X | Y`, a `types.UnionType` (flat, hashable, no `__name__`), with its `repr` -/
+  | union (args : List Atom) (repr : String)
   deriving DecidableEq, Repr
 
 def Atom.name? : Atom → Option String
@@ -68,13 +77,18 @@ def Atom.name? : Atom → Option String
   | .settings => some "Settings"
   | .listError => some "list"
   | .cls n => some n
-  | .opaque => none
-  | .unhashable _ => none
+  | .opaque _ => none
+  | .unhashable _ _ => none
 
-/-- `annotation.__name__` -/
-def Ann.name? : Ann → Option String
-  | .one a => a.name?
-  | .union _ => none
+/-- `type_name(ty)` = `getattr(ty, "__name__", repr(ty))` -/
+def Atom.typeName : Atom → String
+  | .opaque r => r
+  | .unhashable _ r => r
+  | a => (a.name?).getD ""
+
+def Ann.typeName : Ann → String
+  | .one a => a.typeName
+  | .union _ r => r
 
 def Ann.annotated : Ann → Bool
   | .one .empty => false
@@ -110,32 +124,30 @@ def isListError : Ann → Bool
 /-- body of the `for param in optional_params` loop -/
 def checkOptional (file : String) (line : Nat) (p : Param) : Except LoadErr Unit :=
   if p.name = "settings" ∧ p.ann = .one .settings then .ok ()
-  else match p.ann.name? with
-    | some n => .error (located file line ("\"" ++ p.name ++ ": " ++ n ++ "\" is not a valid service"))
-    | none => .error (.crash "AttributeError")
+  else .error (located file line ("\"" ++ p.name ++ ": " ++ p.ann.typeName ++ "\" is not a valid service"))
 
 def checkOptionals (file : String) (line : Nat) : List Param → Except LoadErr Unit
   | [] => .ok ()
   | p :: ps => checkOptional file line p >>= fun _ => checkOptionals file line ps
 
-/-- `ty in VALID_NODE_TYPES`, else the error built from `ty.__name__` -/
+/-- one member of a union: `ty not in VALID_NODE_TYPES` (a set lookup, so an unhashable member would
+    raise; Python cannot build such a union, the branch is kept for totality) -/
 def atomNode (file : String) (line : Nat) (a : Atom) : Except LoadErr String :=
   match a with
   | .node n => .ok n
-  | .unhashable ty => .error (.typeError none ("unhashable type: '" ++ ty ++ "'"))
-  | a =>
-    match a.name? with
-    | some n => .error (located file line ("\"" ++ n ++ "\" is not a valid Mypy node type"))
-    | none => .error (.crash "AttributeError")
+  | .unhashable ty _ => .error (.typeError none ("unhashable type: '" ++ ty ++ "'"))
+  | a => .error (located file line ("\"" ++ a.typeName ++ "\" is not a valid Mypy node type"))
 
 def atomNodes (file : String) (line : Nat) : List Atom → Except LoadErr (List String)
   | [] => .ok []
   | a :: as => atomNode file line a >>= fun n => atomNodes file line as >>= fun ns => .ok (n :: ns)
 
-/-- the `match node_param` statement -/
+/-- the `match node_param` statement: a union is checked member by member; anything else must be a
+    class (`case type() as ty`) that is a node type, and is otherwise named with `type_name` -/
 def nodeTypes (file : String) (line : Nat) : Ann → Except LoadErr (List String)
-  | .union args => atomNodes file line args
-  | .one a => atomNode file line a >>= fun n => .ok [n]
+  | .union args _ => atomNodes file line args
+  | .one (.node n) => .ok [n]
+  | .one a => .error (located file line ("\"" ++ a.typeName ++ "\" is not a valid Mypy node type"))
 
 /-- `list(extract_function_types(func))`: the node types the check subscribes to, or how it ends -/
 def validSignature (file : String) (line : Nat) (sig : Sig) : Except LoadErr (List String) :=
@@ -151,8 +163,13 @@ def validSignature (file : String) (line : Nat) (sig : Sig) : Except LoadErr (Li
         checkOptionals file line optional >>= fun _ => nodeTypes file line nodeParam.ann
     | _ => .error (located file line "Check function must take 2-3 parameters")
 
-/-- `run_check`: the number of arguments the visitor passes -/
-def runCheckArity (annotations : List String) : Nat :=
+/-- `run_check`: the number of arguments the visitor passes;
+    `takes_settings(check)` is `len(signature(check).parameters) == 3` -/
+def runCheckArity (sig : Sig) : Nat :=
+  if sig.params.length = 3 then 3 else 2
+
+/-- the rule `run_check` used before c0c0e5f: `len(check.__annotations__) == 4` -/
+def arityByAnnotations (annotations : List String) : Nat :=
   if annotations.length = 4 then 3 else 2
 
 /-- does a call with `n` positional arguments bind to the signature? (else: TypeError at the call) -/
@@ -235,7 +252,7 @@ def yieldLeaf (st : WalkState) (p : ModPath) : WalkState :=
     totality; `getModules` only walks when every name resolves) -/
 def stepTarget (f : Forest) (st : WalkState) (t : ModPath) : Except LoadErr WalkState :=
   match f.resolve t with
-  | none => .error (.crash "ModuleNotFoundError")
+  | none => .error (importFailure t)
   | some (.leaf _) => if (t, false) ∈ st.loaded then .ok st else .ok (yieldLeaf st t)
   | some (.pkg kids) =>
     if (t, true) ∈ st.loaded then .ok st
@@ -254,6 +271,9 @@ def walkTargets (f : Forest) : WalkState → List ModPath → WalkState × Optio
 /-- every name can be imported -/
 def allResolve (f : Forest) (ts : List ModPath) : Bool := ts.all (fun t => (f.resolve t).isSome)
 
+/-- the first name that cannot be imported -/
+def firstBad (f : Forest) (ts : List ModPath) : Option ModPath := ts.find? (fun t => (f.resolve t).isNone)
+
 /-- `get_modules(paths)`: the built-in package first, then the targets.  The display
     `(checks_module, *extra_modules)` unpacks the lazy `extra_modules` generator before the loop
     starts, so every target is imported up front: if one cannot be imported nothing is yielded. -/
@@ -261,7 +281,21 @@ def getModules (f : Forest) (builtin : ModPath) (targets : List ModPath) : List 
   if allResolve f (builtin :: targets) then
     let r := walkTargets f { loaded := [], out := [] } (builtin :: targets)
     (r.1.out, r.2)
-  else ([], some (.crash "ModuleNotFoundError"))
+  else ([], some (importFailure ((firstBad f (builtin :: targets)).getD [])))
+
+/-- `str(e)` of the ModuleNotFoundError: it names the first prefix of the dotted name that does not
+    resolve, and says so when the parent is a plain module -/
+def importTextFrom (f : Forest) (t : ModPath) : Nat → Nat → String
+  | 0, _ => "No module named '" ++ ".".intercalate t ++ "'"
+  | fuel + 1, k =>
+    if (f.resolve (t.take k)).isSome ∧ k < t.length then importTextFrom f t fuel (k + 1)
+    else
+      let base := "No module named '" ++ ".".intercalate (t.take k) ++ "'"
+      match f.resolve (t.take (k - 1)) with
+      | some (.leaf _) => base ++ "; '" ++ ".".intercalate (t.take (k - 1)) ++ "' is not a package"
+      | _ => base
+
+def importText (f : Forest) (t : ModPath) : String := importTextFrom f t t.length 1
 
 /-! ### `load_checks` -/
 
@@ -316,7 +350,7 @@ def sigAt (f : Forest) (p : ModPath) : Option Sig := (f.leafAt p).bind (·.check
 
 def arityAt (f : Forest) (p : ModPath) : Nat :=
   match sigAt f p with
-  | some sig => runCheckArity sig.annotations
+  | some sig => runCheckArity sig
   | none => 2
 
 def callsAt (f : Forest) (t : Dispatch) (i : Nat) (ty : String) : List Call :=
@@ -347,8 +381,10 @@ structure Report where
   exit : Nat
   deriving DecidableEq, Repr
 
-def reportOf : LoadErr → Report
+/-- main.py: `except (TypeError, ImportError) as e: print(e); return 1`; anything else is a traceback -/
+def reportOf (f : Forest) : LoadErr → Report
   | .crash _ => { stdoutLine := none, traceback := true, exit := 1 }
+  | .importError t => { stdoutLine := some (importText f t), traceback := false, exit := 1 }
   | e => { stdoutLine := some e.text, traceback := false, exit := 1 }
 
 end RefurbVerif.Loader
